@@ -225,7 +225,14 @@ def _main_check(ctx: Ctx) -> None:
                   message=f"{n_adv}", file=fi.file, node=clock)
         lookups = [s for s in loop.body if isinstance(s, ast.Assign) and isinstance(s.value, ast.Call) and isinstance(s.value.func, ast.Name)
                    and s.value.func.id == "next" and cv in {n.id for n in ast.walk(s.value) if isinstance(n, ast.Name)}]
-        ctx.floor("signature/key look-ups", len(lookups), 2)
+        # look-ups done by a private helper that was not put in place (a search loop with a `return` inside): not judged rather than missing
+        helper_lookups = [s for s in loop.body if isinstance(s, ast.Assign) and isinstance(s.value, ast.Call) and (call_method(s.value)[1] or "").startswith("_")
+                          and cv in {n.id for a_ in s.value.args for n in ast.walk(a_) if isinstance(n, ast.Name)}]
+        if len(lookups) < 2 and len(lookups) + len(helper_lookups) >= 2:
+            ctx.undetermined("CONSUME", f"{FN}: signature / key look-ups", f"done by {sorted({call_method(s.value)[1] for s in helper_lookups})} (not inlinable): "
+                                                                           f"look-up and consumption not judged")
+        else:
+            ctx.floor("signature/key look-ups", len(lookups), 2)
         for lk in lookups:
             ctx.check(lk.lineno < clock.lineno, "CLOCK", f"{FN}: `{short(lk.targets[0])}` look-up reads the clock before it is advanced", function=FN,
                       construct="signature look-up happens after the clock was advanced", message="the bar would get the next bar's signature",
@@ -292,11 +299,31 @@ def _main_check(ctx: Ctx) -> None:
             and t.value.id == wl for t in s.targets)]
     rem = [s for s in cont if isinstance(s.value, ast.Subscript)]
     fresh = [s for s in cont if isinstance(s.value, ast.Call) and isinstance(s.value.func, ast.Name) and s.value.func.id == "Sequence" and not s.value.args and not s.value.keywords]
-    ctx.check(len(rem) == 1 and isinstance(rem[0].value.slice, ast.Constant) and rem[0].value.slice.value == 1, "PLACEHOLDER",
-              f"{FN}: the remainder (piece [1]) continues the track", function=FN, construct="track does not continue with the remainder piece",
-              message=f"{[short(s) for s in rem]}", file=fi.file, node=track_loop)
-    ctx.check(len(fresh) >= 1, "PLACEHOLDER", f"{FN}: an exhausted track continues with an empty sequence", function=FN,
-              construct="exhausted track is not replaced by an empty placeholder", message="", file=fi.file, node=track_loop)
+    # decided case by case (split returned nothing / one piece / piece and remainder) when the body can be interpreted; by shape otherwise
+    cases = _round_cases(fi, loop, track_loop, wl)
+    semantic = cases is not None and all("undecided" not in cases[L] for L in (0, 1, 2))
+    if semantic:
+        want = {2: ("piece1", "piece0"), 1: ("fresh", "piece0"), 0: ("fresh", "fresh")}
+        names = {0: "no piece", 1: "one piece", 2: "a piece and a remainder"}
+        for L in (2, 1, 0):
+            c_ = cases[L]
+            ctx.check(c_["cont"] == [want[L][0]], "PLACEHOLDER", f"{FN}: split returned {names[L]} -> the track continues with {c_['cont']}", function=FN,
+                      construct=("track does not continue with the remainder piece" if L == 2 else "exhausted track is not replaced by an empty placeholder"),
+                      message=f"when split returns {names[L]} the track's next sequence is {c_['cont']}, required [{want[L][0]!r}] (piece1 = the remainder, fresh = a new empty "
+                              f"Sequence)", file=fi.file, node=track_loop)
+            ctx.check(c_["bar"] == [want[L][1]], "SPLITCASE", f"{FN}: split returned {names[L]} -> the bar is built from {c_['bar']}", function=FN,
+                      construct=("the bar is not built from the first piece of the split" if L else "the empty piece for an exhausted track is missing or supplied under another condition"),
+                      message=f"when split returns {names[L]} the bar is built from {c_['bar']}, required [{want[L][1]!r}]", file=fi.file, node=track_loop)
+        asked = cases[2]["flags"] - cases[1]["flags"] - cases[0]["flags"]
+        ctx.check(bool(asked), "SPLITCASE", f"{FN}: another round is requested exactly when a remainder exists ({sorted(asked)})", function=FN,
+                  construct="another round is requested under a condition other than `split returned more than one piece`",
+                  message=f"flags set with a remainder {sorted(cases[2]['flags'])}, without {sorted(cases[1]['flags'] | cases[0]['flags'])}", file=fi.file, node=track_loop)
+    else:
+        ctx.check(len(rem) == 1 and isinstance(rem[0].value.slice, ast.Constant) and rem[0].value.slice.value == 1, "PLACEHOLDER",
+                  f"{FN}: the remainder (piece [1]) continues the track", function=FN, construct="track does not continue with the remainder piece",
+                  message=f"{[short(s) for s in rem]}", file=fi.file, node=track_loop)
+        ctx.check(len(fresh) >= 1, "PLACEHOLDER", f"{FN}: an exhausted track continues with an empty sequence", function=FN,
+                  construct="exhausted track is not replaced by an empty placeholder", message="", file=fi.file, node=track_loop)
     # the flag that decides about another round: named in the loop test, or in an `if <flag>: break` at the top level of the loop body
     flag_names = {n.id for n in ast.walk(loop.test) if isinstance(n, ast.Name)}
     for b_ in loop.body:
@@ -356,7 +383,7 @@ def _main_check(ctx: Ctx) -> None:
             sv = s_.targets[0].id
     if sv is None:
         ctx.undetermined("SPLITCASE", f"{FN}: result of the per-track split", "not bound to a name: not judged")
-    else:
+    elif not semantic:
         def lencase(t):
             """-> set of list lengths (0, 1, 2 = two or more) for which `t` holds, or None."""
             neg = False
@@ -473,6 +500,129 @@ def _main_check(ctx: Ctx) -> None:
         piece = isinstance(recv, ast.Subscript) and isinstance(recv.value, ast.Name) and recv.value.id not in input_vars and isinstance(recv.slice, ast.Constant)
         ctx.check(piece or (isinstance(recv, ast.Name) and recv.id not in input_vars), "SHORTEN", f"{FN}: re-quantisation applies to the piece, not the input",
                   function=FN, construct="re-quantisation applied to an input sequence", message="", file=fi.file, node=c)
+
+
+def _round_cases(fi, loop, track_loop, wl: str):
+    """What one visit of a track does, decided for each possible result of the per-track split -- no piece, one piece, piece and
+    remainder -- by interpreting the body of the track loop with the list modelled concretely.  -> {0|1|2: {"cont": value stored as the
+    track's continuation, "bar": first argument of Bar(...), "flags": {(name, bool)}}} with values "piece0" / "piece1" / "fresh" (a new
+    empty Sequence) / "none" / "other"; None when the body uses something the interpretation does not model."""
+    sv = None
+    for s_ in track_loop.body:
+        if isinstance(s_, ast.Assign) and isinstance(s_.targets[0], ast.Name) and isinstance(s_.value, ast.Call) and call_method(s_.value)[1] == "split":
+            sv = s_.targets[0].id
+    if sv is None:
+        return None
+    # a list that collects the continuations and replaces the working list after the visit (`rest.append(x)` ... `wl = rest`)
+    collectors = {a.value.id for a in ast.walk(loop) if isinstance(a, ast.Assign) and len(a.targets) == 1 and isinstance(a.targets[0], ast.Name)
+                  and a.targets[0].id == wl and isinstance(a.value, ast.Name)}
+
+    class Undecided(Exception):
+        pass
+
+    def run(L):
+        pieces = ["piece0", "piece1"][:L]
+        env = {}
+        out = {"cont": [], "bar": [], "flags": set()}
+
+        def ev(e):
+            if isinstance(e, ast.Constant):
+                return "none" if e.value is None else (e.value if isinstance(e.value, bool) else "other")
+            if isinstance(e, ast.Name):
+                return env.get(e.id, "other")
+            if isinstance(e, ast.Subscript) and isinstance(e.value, ast.Name) and e.value.id == sv and isinstance(e.slice, ast.Constant) and isinstance(e.slice.value, int):
+                if 0 <= e.slice.value < len(pieces):
+                    return pieces[e.slice.value]
+                raise Undecided(f"`{short(e)}` does not exist when split returns {L} piece(s)")
+            if isinstance(e, ast.Call) and isinstance(e.func, ast.Name) and e.func.id == "Sequence" and not e.args and not e.keywords:
+                return "fresh"
+            if isinstance(e, ast.IfExp):
+                t = truth(e.test)
+                if t is None:
+                    raise Undecided(f"`{short(e.test)}`")
+                return ev(e.body if t else e.orelse)
+            return "other"
+
+        def truth(t):
+            if isinstance(t, ast.UnaryOp) and isinstance(t.op, ast.Not):
+                r = truth(t.operand)
+                return None if r is None else not r
+            if isinstance(t, ast.BoolOp):
+                vs = [truth(v) for v in t.values]
+                if isinstance(t.op, ast.And):
+                    return False if any(v is False for v in vs) else (True if all(v is True for v in vs) else None)
+                return True if any(v is True for v in vs) else (False if all(v is False for v in vs) else None)
+            if isinstance(t, ast.Name) and t.id == sv:
+                return len(pieces) > 0
+            if isinstance(t, ast.Name) and isinstance(env.get(t.id), bool):
+                return env[t.id]
+            if isinstance(t, ast.Compare) and len(t.ops) == 1:
+                l, r, op = t.left, t.comparators[0], type(t.ops[0])
+                if isinstance(l, ast.Constant) and not isinstance(r, ast.Constant):
+                    l, r, op = r, l, {ast.Lt: ast.Gt, ast.LtE: ast.GtE, ast.Gt: ast.Lt, ast.GtE: ast.LtE}.get(op, op)
+                if isinstance(l, ast.Call) and getattr(l.func, "id", None) == "len" and l.args and src(l.args[0]) == sv and isinstance(r, ast.Constant) and isinstance(r.value, int):
+                    n, c0 = len(pieces), r.value
+                    return {ast.Gt: n > c0, ast.GtE: n >= c0, ast.Lt: n < c0, ast.LtE: n <= c0, ast.Eq: n == c0, ast.NotEq: n != c0}.get(op)
+                if isinstance(r, ast.Constant) and r.value is None and op in (ast.Is, ast.Eq, ast.IsNot, ast.NotEq):
+                    v = ev(l)
+                    if v == "other":
+                        return None
+                    return (v == "none") == (op in (ast.Is, ast.Eq))
+            return None
+
+        def block(stmts):
+            for s_ in stmts:
+                if isinstance(s_, ast.If):
+                    t = truth(s_.test)
+                    if t is None:
+                        # a test about something else (the quantisation flag, the key): both branches, neither may touch what is decided here
+                        touched = [x for y in s_.body + s_.orelse for x in ast.walk(y)
+                                   if (isinstance(x, ast.Name) and isinstance(x.ctx, ast.Store)) or (isinstance(x, ast.Call) and src(x.func) == "Bar")
+                                   or (isinstance(x, ast.Subscript) and isinstance(x.ctx, ast.Store))]
+                        if any((isinstance(x, ast.Name) and (x.id in env or x.id == sv)) or isinstance(x, (ast.Call, ast.Subscript)) for x in touched):
+                            raise Undecided(f"`{short(s_.test, 50)}` governs the bookkeeping")
+                        for x in touched:
+                            if isinstance(x, ast.Name):
+                                env[x.id] = "other"
+                        continue
+                    r_ = block(s_.body if t else s_.orelse)
+                    if r_ is not None:
+                        return r_
+                elif isinstance(s_, (ast.Continue, ast.Break, ast.Return)):
+                    return "left"
+                elif isinstance(s_, ast.Assign) and len(s_.targets) == 1:
+                    tg = s_.targets[0]
+                    if isinstance(tg, ast.Name):
+                        if tg.id == sv:
+                            if not (isinstance(s_.value, ast.Call) and call_method(s_.value)[1] == "split"):
+                                raise Undecided(f"`{short(s_)}` rebinds the split result")
+                            continue
+                        v = ev(s_.value)
+                        env[tg.id] = v
+                        if isinstance(v, bool):
+                            out["flags"].add((tg.id, v))
+                    elif isinstance(tg, ast.Subscript) and isinstance(tg.value, ast.Name) and tg.value.id == wl:
+                        out["cont"].append(ev(s_.value))
+                    elif isinstance(tg, ast.Tuple):
+                        raise Undecided(f"`{short(s_)}`")
+                elif isinstance(s_, ast.Expr) and isinstance(s_.value, ast.Call):
+                    c = s_.value
+                    recv, name = call_method(c)
+                    if name == "append" and isinstance(recv, ast.Name) and recv.id == sv and c.args:
+                        pieces.append(ev(c.args[0]))
+                    elif name == "append" and isinstance(recv, ast.Name) and recv.id in collectors and c.args:
+                        out["cont"].append(ev(c.args[0]))
+                    elif name == "append" and c.args and isinstance(c.args[0], ast.Call) and src(c.args[0].func) == "Bar" and c.args[0].args:
+                        out["bar"].append(ev(c.args[0].args[0]))
+                elif isinstance(s_, (ast.For, ast.While, ast.Try, ast.With)):
+                    raise Undecided(f"nested `{type(s_).__name__.lower()}` in the track loop")
+            return None
+        try:
+            block(track_loop.body)
+        except Undecided as e:
+            return {"undecided": str(e)}
+        return out
+    return {L: run(L) for L in (0, 1, 2)}
 
 
 def check(ctx: Ctx) -> None:
